@@ -11,6 +11,8 @@ mod evidence;
 mod gen;
 mod known;
 mod minimise;
+#[cfg(feature = "native")]
+mod native_c07;
 mod oracle;
 mod pool;
 mod props;
@@ -104,6 +106,17 @@ fn main() {
             let c = p.gen(props::case_seed(seed, p.id(), idx), idx, tier_of(arg(&args, "--tier")));
             println!("{}", c.to_json().pretty());
             0
+        }
+        "native-c07" => {
+            #[cfg(feature = "native")]
+            {
+                native_c07::run(seed, tier_of(arg(&args, "--tier")), arg(&args, "--verif-dir").unwrap_or("/verif"))
+            }
+            #[cfg(not(feature = "native"))]
+            {
+                eprintln!("native-c07 needs the build against the real rayon (simnative)");
+                2
+            }
         }
         "selftest" => {
             println!("hash seam ok; engine = {}", pool::ENGINE);
